@@ -111,7 +111,8 @@ NsCollisions == {<<pq[1][1], pq[2][1]>> : pq \in {x \in LeasePairs \X LeasePairs
 NsUnstable   == {pq[1][1] : pq \in {x \in LeasePairs \X LeasePairs : x[1][1] = x[2][1] /\ x[1][2] # x[2][2]}}
 NsInvalid    == {Leases[i].ns : i \in {j \in DOMAIN Leases : ~ValidDNS1123Label(Leases[j].nsChars)}}
 NsReport == [distinctLeases |-> Cardinality({p[1] : p \in LeasePairs}), distinctNames |-> Cardinality({p[2] : p \in LeasePairs}),
-             collisions |-> Cardinality(NsCollisions), unstable |-> Cardinality(NsUnstable), invalid |-> NsInvalid]
+             collisions |-> Cardinality(NsCollisions), unstable |-> Cardinality(NsUnstable), invalid |-> NsInvalid,
+             remoteEndpoints |-> Cardinality(Remote), egressPorts |-> Cardinality(EgressPorts)]
 
 -----------------------------------------------------------------------------
 Report(t) ==
